@@ -180,8 +180,8 @@ pub fn main(ctx: &Ctx) {
     ctx.assume("AbTestSplitter owns two caches of the configured capacity each, so its size bound is 2 x capacity");
     run_committed_replays(ctx, &C20);
     run_committed_replays(ctx, &Direct);
-    run_pbt(ctx, &C20, ctx.tier.pick(4_000, 150_000));
-    run_pbt(ctx, &Direct, ctx.tier.pick(6_000, 200_000));
+    run_pbt(ctx, &C20, ctx.tier.pick(100_000, 2_000_000));
+    run_pbt(ctx, &Direct, ctx.tier.pick(150_000, 3_000_000));
 }
 
 pub fn replay(ctx: &Ctx, v: &serde_json::Value) -> Option<i32> {
